@@ -413,6 +413,14 @@ class Sim:
 
     # ------------------------------------------------------------------ client life cycle
     def _op_start(self, c, i):
+        if self.lazy_events:
+            # single client, no pre-emption: only ops with a planned fault / gc point need event delivery at all.
+            # (In ops run without events the I3 step budget cannot be enforced; a hang there ends in the wall-clock
+            # watchdog, i.e. exit 2, never in a pass.)
+            need = bool(c.faults.get(i) or c.gcs.get(i))
+            if need != self.events_on:
+                mon.set_events(TOOL, self.ev_kind if need else 0)
+                self.events_on = need
         self._sync(c)
         c.op_ev = 0
         c.op_i = i
@@ -486,7 +494,11 @@ class Sim:
             t = threading.Thread(target=self._client_main, args=(c,), name='client-%d' % c.cid, daemon=True)
             c.thread = t
             t.start()
-        mon.set_events(TOOL, ev)
+        self.ev_kind = ev
+        self.lazy_events = bool(self.spec.get('lazy_events')) and self.kind == 'none' and len(self.clients) == 1
+        self.events_on = not self.lazy_events
+        if self.events_on:
+            mon.set_events(TOOL, ev)
         simlock.CURRENT[0] = self
         first = self.clients[0]
         if self.kind == 'replay':
